@@ -701,7 +701,7 @@ class NMRCalculator:
 
         if freq_broad is not None:
             if has_orient and use_pwd:
-                fc = (max_freq + min_freq) / 2.0
+                fc = (max_freq + min_freq) / 2.0 * u[freq_units]
                 bk = np.exp(-(((freq_axis - fc) / freq_broad) ** 2.0))
                 bk /= np.sum(bk)
                 spec = np.convolve(spec, bk, mode="same")
